@@ -7,6 +7,14 @@ ASSUMPTIONS = ["histories are executed against the real runtime.guarded()/add_gu
                "and the identity of the objects) with the one before the region, whether it ended normally or by an exception",
                "exceptions are raised explicitly at any statement and by traced operations whose values are invalid; they are caught "
                "at any enclosing level by try/except BaseException",
+               "the exceptions raised inside regions are of many classes and argument shapes (event `!x:<kind>`, harness/worker_guard.py RAISERS: no "
+               "arguments, str / int / None / tuple / bytes / float / exception first argument, several arguments, OSError(errno, text), classes "
+               "with their own __str__, StopIteration, AssertionError, BaseException subclasses KeyboardInterrupt / SystemExit / GeneratorExit / an "
+               "own one, and ordinary failing Python operations of a body: dict and list lookups, int('x'), 1 // 0, os.stat of a missing file, "
+               "bytes.decode, attribute of None), in live and dead regions entered in every way, caught by the caller around the region / "
+               "inside an enclosing region / not at all (a fixed family on every seed plus the random histories); besides the triple the "
+               "harness notes (evidence histogram only, never a violation: the property is about the guard state) whether the exception the "
+               "catcher receives is the one raised; the model has one kind of raise (`!`)",
                "the statement-based block API (_if/_while/...) is represented by bare add_guard/restore_guard pairs in the modelled history "
                "language; in addition the REAL block API (_if/_elif/_else/_endif, _while/_endwhile, _range/_endfor over a BranchingValues "
                "context, rendered as Python source by harness/worker_blockguard.py) is driven with histories whose closing or switching "
@@ -14,6 +22,16 @@ ASSUMPTIONS = ["histories are executed against the real runtime.guarded()/add_gu
                "iteration only / in an if without else / in a loop body), the caller catches it and goes on; oracle on the real code only "
                "(no model counterpart): the guard triple after the caught error is the one from before the block (values and object "
                "identity), and a later false assertion at a live level is still rejected",
+               "block statements with a step that FAILS BETWEEN the library's exit() of one arm / iteration and the enter() of the next, survived "
+               "by the caller, who then closes the statement as usual (statement `failclose` of harness/worker_blockguard.py: an `_elif` whose "
+               "condition function raises (explicit KeyError, lookup failure, comparison outside the bit length), an `_else` whose guard -2 "
+               "add_guard refuses after `_if(1)`, the second evaluation of a `_while` / `_range` condition raising 'conditional write to "
+               "undefined variables'; controls: `_elif` refused before anything happens, fault-free `_elif`), each followed by `_endif` / "
+               "`_endwhile` / `_endfor` (whose own bookkeeping error is caught too), inside ENCLOSING regions of every kind - guarded(), two "
+               "guarded(), the if / elif / else arm of an outer `_if`, `_while`, `for _range` with int and secret stop, `_if` inside guarded(), "
+               "`_range` inside `_if` - taken and not taken: the triple after the closing call is the one before the statement (values and "
+               "objects), a later false assertion is rejected in a live and tolerated in a dead enclosing region; every (failure point, "
+               "enclosure, value) on every seed; Python oracle only",
                "`_breakif` at every place of the real block API: directly in a `_while`/`_range` body and inside the `_if` / `_else` arm of an "
                "`_if(d)` within such a loop, w, d, c in {0,1}, int and secret loop bounds, optionally below guarded(0/1) or a taken / "
                "not-taken `_if`; every (loop form, enclosing region, arm, w, d, c) on every seed plus random ones with 1-3 iterations and a "
@@ -41,6 +59,13 @@ ASSUMPTIONS = ["histories are executed against the real runtime.guarded()/add_gu
                "just runs its body; `with guarded(cond):` does not exist in the pinned tree and is not driven"]
 PARTIAL = ["C08_restore covers regions entered through guarded(); bare add_guard/restore_guard pairs (block API) have the closed counterexample C08_cex_raw_no_unwind (finding C08-block-unwind)",
            "the value of the effective guard at depth >= 2 (conjunction through the bitwise-AND gadget) is validated by the correspondence only; proved: the error-suppression flag nests as a disjunction (C08_ignore_nests) and the outermost guard is the condition (C08_outermost)"]
+
+
+# exceptions of many classes and argument shapes (harness/worker_guard.py RAISERS): explicit raises and ordinary failing Python operations
+EXC_KINDS = ["no-args", "class-only", "str", "int", "none", "tuple-arg", "two-args", "int-str", "bytes", "float", "exc-arg", "custom-str",
+             "custom-str-noargs", "stop-iteration", "sysexit-int", "sysexit-none", "sysexit-str", "keyboard-interrupt", "generator-exit",
+             "base-int", "dict-lookup", "dict-lookup-tuple", "list-index", "int-parse", "zero-div", "os-error", "assert", "assert-int", "decode",
+             "attribute"]
 
 
 def gen_events(rnd, depth, allow_raw, budget, ing=0):
@@ -78,7 +103,7 @@ def gen_events(rnd, depth, allow_raw, budget, ing=0):
             else:
                 out.append("T("); out += gen_events(rnd, depth + 1, allow_raw, budget, ing); out.append(")")
         elif c < 0.62:
-            out.append(rnd.choice(["!", "!", "!b"]))
+            out.append(rnd.choice(["!", "!", "!b"]) if rnd.random() < 0.4 else "!x:" + rnd.choice(EXC_KINDS))
         elif c < 0.85:
             a = rnd.choice([0, 1, 5, 100, 127, 128, 300, -1, -200])
             b = rnd.choice([0, 1, 5, 100, 127, 128, 300, -1, -200])
@@ -157,10 +182,31 @@ def model_tokens(toks):
             elif t.endswith("("):
                 body, pos = seq(pos + 1, (")",))
                 res += [t] + body + [")"]; pos += 1
+            elif t.startswith("!x:"):
+                res.append("!"); pos += 1       # the model has one kind of raise: what is raised is the Python side's subject
             else:
                 res.append(t); pos += 1
         return res, pos
     return seq(0, ())[0]
+
+
+def exception_family():
+    """every exception kind x guard value x way of entering the region (guarded() with a secret int / boolean condition, below a taken
+    region, the then / else branch function of a selection, a re-entered decorator) x caught by the caller around the region, inside an
+    enclosing region, or not at all; later code follows.  Run on every seed."""
+    out = []
+    for k in EXC_KINDS:
+        x = "!x:" + k
+        for v in (0, 1):
+            out.append(["T(", f"G:L:{v}(", x, ")", ")", "az:0", "lt:1:2"])
+            out.append(["G:L:1(", "T(", f"G:B:{v}(", "lt:1:2", x, ")", ")", "lt:1:2", ")", "az:0"])
+            out.append(["T(", f"FT:B:{v}(", x, "/", ")", ")", "lt:2:1"])
+            out.append(["T(", f"FE:B:{v}(", "/", x, ")", ")", "lt:2:1"])
+            out.append(["T(", f"G:L:{v}(", "R(", x, ")", ")", ")", "az:0"])
+            out.append([f"G:B:{v}(", x, ")"])
+        out.append(["T(", "G:L:1(", "G:L:0(", x, ")", "lt:1:2", ")", ")", "lt:5:300"])
+        out.append(["G:L:0(", "T(", "G:L:1(", x, ")", ")", "az:3", ")", "az:0"])
+    return out
 
 
 def selection_family():
@@ -345,6 +391,107 @@ def block_histories(ctx, ex, extended):
 
 
 
+# ---------------------------------------------------------------- block API: a failed switching call, survived, then the closing call
+FAIL_KINDS = [("if", "elif-thunk-raises"), ("if", "elif-thunk-lookup"), ("if", "elif-condition-overflows"), ("if", "else-guard-rejected"),
+              ("if", "elif-not-callable"), ("if", "elif-ok"), ("while", "undefined-write:y"), ("for", "undefined-write:y"),
+              ("for-secret", "undefined-write:q")]
+ENCLOSURES = ["none", "guarded", "guarded2", "if", "else", "elif", "while", "for-int", "for-secret", "if-in-guarded", "for-in-if"]
+
+
+def failclose_program(form, kind, wrap, v, rnd=None):
+    """a block statement with a step that fails between exit() and enter(), survived by the caller and closed as usual, inside an
+    ENCLOSING region of kind `wrap` whose condition has value v (1 = taken); later code of the enclosing region follows: a false
+    assertion must still be rejected in a live enclosing region and tolerated in a dead one"""
+    B = lambda x: ["B", x] if rnd is None or rnd.random() < 0.7 else (["C", 1, 3] if x else ["C", 3, 1])
+    names = ["z"] if rnd is None or rnd.random() < 0.8 else []
+    c = B(rnd.choice([0, 1]) if rnd else 1)
+    if form == "for": c = 2
+    if form == "for-secret": c = ["S", rnd.choice([1, 2]) if rnd else 2]
+    stmt = ["failclose", form.split("-")[0], kind, c, names]
+    inner = [stmt, ["later"], ["set", "z", 3]]
+    if rnd is not None and rnd.random() < 0.3:
+        f2, k2 = rnd.choice(FAIL_KINDS)
+        inner.append(failclose_program(f2, k2, "none", 1, rnd)[0][1])         # a second such statement at the same level
+    live = True
+    if wrap == "none": prog = inner
+    elif wrap == "guarded": prog = [["guarded", B(v), inner]]; live = v == 1
+    elif wrap == "guarded2":
+        v2 = rnd.choice([0, 1, 1]) if rnd else 1
+        prog = [["guarded", B(v2), [["guarded", B(v), inner]]]]; live = v == 1 and v2 == 1
+    elif wrap == "if": prog = [["if", [[B(v), inner]], [["set", "z", 1]]]]; live = v == 1
+    elif wrap == "else": prog = [["if", [[B(1 - v), [["set", "z", 1]]]], inner]]; live = v == 1
+    elif wrap == "elif": prog = [["if", [[B(0), [["set", "z", 1]]], [B(v), inner]], [["set", "z", 2]]]]; live = v == 1
+    elif wrap == "while": prog = [["while", B(v), 1, inner]]; live = v == 1
+    elif wrap == "for-int": prog = [["for", 1, None, inner]]; live = True
+    elif wrap == "for-secret": prog = [["for", ["S", v], 1, inner]]; live = v == 1           # stop 0: the only iteration is not live
+    elif wrap == "if-in-guarded": prog = [["guarded", B(1), [["if", [[B(v), inner]], [["set", "z", 1]]]]]]; live = v == 1
+    elif wrap == "for-in-if": prog = [["if", [[B(v), [["for", 1, None, inner]]]], [["set", "z", 1]]]]; live = v == 1
+    else: raise ValueError(wrap)
+    return [["set", "z", 2]] + prog + [["try", [["assert_eq", 5, 7]]], ["assert_eq", 4, 4]], live
+
+
+def failclose_histories(ctx, ex, extended):
+    """every (failure point, enclosing region, value of its condition) on every seed, plus random ones (second statement, comparison
+    conditions, no pre-existing name); every fourth after the user's ignore_errors(True).  Python oracle only."""
+    import json
+    rnd = ctx.rnd
+    jobs = []
+    for form, kind in FAIL_KINDS:
+        for wrap in ENCLOSURES:
+            for v in ((1,) if wrap in ("none", "for-int") else (1, 0)):
+                prog, live = failclose_program(form, kind, wrap, v)
+                jobs.append((prog, {"form": form, "kind": kind, "wrap": wrap, "live": live, "ign": 0}))
+    nfix = len(jobs)
+    for i in range(ctx.n(150, 4000) * (3 if extended else 1)):
+        form, kind = rnd.choice(FAIL_KINDS); wrap = rnd.choice(ENCLOSURES); v = rnd.choice([0, 1])
+        if wrap in ("none", "for-int"): v = 1
+        prog, live = failclose_program(form, kind, wrap, v, rnd)
+        jobs.append((prog, {"form": form, "kind": kind, "wrap": wrap, "live": live, "ign": 1 if i % 4 == 3 else 0}))
+    jobs += [(prog, dict(meta, ign=1)) for prog, meta in jobs[:nfix:4]]
+    lines = [f"BG|fc{i}|p={common.BN128},bl=8{',ign=1' if meta['ign'] else ''}|" + json.dumps(prog) for i, (prog, meta) in enumerate(jobs)]
+    outs = common.run_workers(lines, script="worker_blockguard.py", nproc=4)
+    for line, (prog, meta), o in zip(lines, jobs, outs):
+        f = o.split("|", 7)
+        if len(f) < 8 or f[1] == "harness-error":
+            raise common.Infra("worker_blockguard: " + o[:400])
+        ex.evaluations += 1
+        rep = json.loads(f[7])
+        imode = "user-on" if meta["ign"] else "off"
+        region = "none" if meta["wrap"] == "none" else ("live" if meta["live"] else "dead")
+        payload = {"line": line, "source": rep["source"], "probes": rep["probes"], "later": rep["later"]}
+        ex.distinct.add(("failclose", json.dumps(prog), meta["ign"]))
+        bad = False
+        for pr in rep["probes"]:
+            if not pr["tag"].startswith("closed-"):
+                continue
+            ex.count(f"block-failclose:{pr['call']}:wrap-{meta['wrap']}:{region}:{pr['tag']}:{'restored' if pr['restored'] else 'NOT-restored'}")
+            if not pr["restored"] and not bad:
+                bad = True
+                ex.violations.append(Violation({"clause": "restore", "via": "block-" + pr["tag"], "call": pr["call"].split(":")[0],
+                                                "enclosing": meta["wrap"], "enclosing_region": region, "ignore_mode": imode},
+                                               f"block API: inside an enclosing region ({meta['wrap']}, {region}) a block statement whose switching call "
+                                               f"failed ({pr['exc']}) was survived by the caller and closed as usual: the guard triple after the closing "
+                                               f"call is {pr['after']} (before the statement: {pr['before']})"
+                                               f"{' (same values, different objects)' if pr['objects_differ_only'] else ''}", payload))
+        if bad:
+            continue
+        ex.traces_validated += 1
+        if f[1] != "ok":
+            ex.violations.append(Violation({"clause": "restore", "via": "block-closed-after-failed-switch", "dev": "history-raises", "enclosing": meta["wrap"],
+                                            "ignore_mode": imode}, f"block API: the history ends with {f[1]}", payload))
+            continue
+        if not meta["ign"] and rep["later"]:
+            want = "rejected" if meta["live"] else "accepted"
+            if rep["later"][0] != want:
+                ex.violations.append(Violation({"clause": "later-assertion", "via": "block-closed-after-failed-switch", "enclosing": meta["wrap"],
+                                                "enclosing_region": region},
+                                               f"block API: after the closed statement, later code of the {region} enclosing region ({meta['wrap']}): a false "
+                                               f"assertion PrivVal(5).assert_eq(7) is {rep['later'][0]} (must be {want})", payload))
+        if not (f[2] == "G=N" and f[3] == f"IGN={meta['ign']}"):
+            ex.violations.append(Violation({"clause": "restore-final", "via": "block-closed-after-failed-switch", "ignore_mode": imode},
+                                           f"block API: the history ends with guard state {f[2]} {f[3]}", payload))
+
+
 def breakif_program(loop, wrap, place, w, d, c, iters=2, direct=None, rnd=None):
     """`_breakif(c)` inside the `place` arm of an `_if(d)` within a loop of condition `w`, optionally below guarded(g) / a taken
     or not-taken `_if`; probes at every point where the set of enclosing conditions changes"""
@@ -468,7 +615,8 @@ def explore(ctx, extended=False, focus=None):
     fam = reentrant_family(); sel = selection_family()
     # the fixed families run with error checking on, and once more after the USER switched it off (ignore_errors(True) before the
     # history): the user's mode is part of the triple every region must bring back
-    fixed = [(t, 0) for t in fam + sel] + [(t, 1) for t in fam[::3] + sel]
+    excf = exception_family()
+    fixed = [(t, 0) for t in fam + sel + excf] + [(t, 1) for t in fam[::3] + sel + excf[::5]]
     mlines = []
     for i in range(len(fixed) + n):
         allow_raw = i % 4 == 3
@@ -520,6 +668,8 @@ def explore(ctx, extended=False, focus=None):
         ex.count(f"depth:{md}"); ex.count(f"end:{fa[1]}"); ex.count("stream:" + ("mixed-raw" if raw else "guarded-only"))
         reent = reentries(toks)
         ex.count("re-entry:" + ("yes" if reent else "no"))
+        for t in toks:
+            if t.startswith("!x:"): ex.count("raise:" + t[3:])
         selh = has_selection(toks)
         ex.count("selection-with-branch-functions:" + ("yes" if selh else "no")); ex.count("user-ignore-mode:" + ("on" if ign0 else "off"))
         imode = "user-on" if ign0 else "off"
@@ -546,6 +696,13 @@ def explore(ctx, extended=False, focus=None):
             # decorator re-entered while it was active; `plain:` = a single activation of its decorator
             for entry in bad.split(" ;; "):
                 tag = entry.split(":", 1)[0]
+                if tag == "exception":
+                    # the exception the caller caught is not the one that was raised in the region (another object / changed arguments)
+                    _, where, base, first, dev = entry.split(":")[:5]
+                    # NOT a violation of C08 (the property is about the guard state, and the triple is judged separately below / above):
+                    # recorded in the evidence histogram only
+                    ex.count(f"exception-altered-on-the-way:{dev.strip()}")
+                    continue
                 if tag == "selection":
                     sig = {"clause": "restore", "via": "if_then_else-branch-function", "ignore_mode": imode}
                 else:
@@ -562,6 +719,7 @@ def explore(ctx, extended=False, focus=None):
         if md >= 2 and (len(ex.samples) < 3 or (len(ex.samples) < 8 and int(fa[0][1:]) >= len(fixed))):
             ex.samples.append(line.split("|", 2)[2])
     block_histories(ctx, ex, extended)
+    failclose_histories(ctx, ex, extended)
     conjunction_histories(ctx, ex, extended)
     return ex
 
